@@ -1,9 +1,9 @@
 CONSTANTS
-  RaiseOnV6 = TRUE
+  RaiseOnV6 = FALSE
   RaiseOnUnicode = FALSE
   BlockInverted = FALSE
   CaseSensitive = FALSE
   StripOnValidate = FALSE
-  MappedByPrefix = FALSE
+  MappedByPrefix = TRUE
 SPECIFICATION Spec
 CHECK_DEADLOCK FALSE
